@@ -24,6 +24,8 @@ from .core import AnalysisError, loc, src
 from .pm import ClassInfo, FuncInfo, ProgramModel, Unit
 
 
+_MISSING: Any = object()
+
 class AbsRaise(Exception):
     """The evaluated formula reaches a `raise` (or an operation that raises) on this point."""
 
@@ -53,6 +55,131 @@ class _Break(Exception):
 
 class _Continue(Exception):
     pass
+
+
+class _GenAbandon(BaseException):
+    """Raised at the suspension point of a generator that nobody will resume: its thread just ends (no clean-up code of
+    the analysed program runs - the consumer is gone and another thread owns the evaluator by then)."""
+
+
+class AGen:
+    """A generator object of the analysed program. The body of a generator function runs in a thread of its own that
+    alternates strictly with its consumer: `next()` hands control to the body until its next `yield`, so a generator is
+    as lazy as in Python - what it yields is computed when it is asked for, it can be suspended with work half done,
+    resumed later, sent values, thrown into and closed, and it is one-shot."""
+
+    def __init__(self, interp: Any, body: Callable[[Any], Any], label: str = "") -> None:
+        import threading
+        self.interp, self.body, self.label = interp, body, label
+        self.to_gen, self.to_con = threading.Semaphore(0), threading.Semaphore(0)
+        self.msg: tuple[Any, ...] = ("next", None)
+        self.out: tuple[Any, ...] = ("return", None)
+        self.started = self.done = self.running = self.abandoned = False
+        self.own_depth = 0                 # calls the body has open while it is suspended
+        self.base_depth = 0
+        self.thread: Any = None
+
+    def __iter__(self) -> "AGen":
+        return self
+
+    def __next__(self) -> Any:
+        return self.send(None)
+
+    def __del__(self) -> None:
+        if self.started and not self.done:
+            self.abandoned = True
+            self.to_gen.release()
+
+    # --- consumer side ------------------------------------------------------------------------------------
+    def _switch(self, msg: tuple[Any, ...]) -> Any:
+        import threading
+        if self.running:
+            raise AbsRaise("ValueError: generator already executing")
+        it = self.interp
+        self.msg = msg
+        self.base_depth = it.depth
+        it.depth = self.base_depth + self.own_depth
+        self.running = True
+        if not self.started:
+            self.started = True
+            self.thread = threading.Thread(target=self._run, daemon=True, name=f"agen:{self.label}")
+            self.thread.start()
+        else:
+            self.to_gen.release()
+        self.to_con.acquire()
+        self.running = False
+        it.depth = self.base_depth
+        kind, val = self.out
+        if kind == "yield":
+            return val
+        self.done = True
+        if kind == "return":
+            raise StopIteration(val)
+        raise val
+
+    def send(self, value: Any) -> Any:
+        if self.done:
+            raise StopIteration
+        if not self.started and value is not None:
+            raise AbsRaise("TypeError: can't send non-None value to a just-started generator")
+        return self._switch(("next", value))
+
+    def throw(self, exc: BaseException) -> Any:
+        if self.done:
+            raise exc
+        if not self.started:
+            self.done = True
+            raise exc
+        return self._switch(("throw", exc))
+
+    def close(self) -> None:
+        if self.done or not self.started:
+            self.done = True
+            return
+        try:
+            self._switch(("throw", _GenClose()))
+        except (StopIteration, _GenClose):
+            self.done = True
+            return
+        raise AbsRaise("RuntimeError: generator ignored GeneratorExit")
+
+    # --- body side ------------------------------------------------------------------------------------------
+    def _run(self) -> None:
+        it = self.interp
+        try:
+            self.out = ("return", self.body(self))
+        except _GenAbandon:
+            return
+        except BaseException as exc:  # noqa: BLE001 - whatever the body raises is the consumer's to see
+            self.out = ("raise", exc)
+        self.own_depth = 0
+        it.depth = self.base_depth
+        self.to_con.release()
+
+    def suspend(self, value: Any) -> Any:
+        """Called by the evaluator at a `yield`: hand `value` to the consumer, wait to be resumed."""
+        it = self.interp
+        self.out = ("yield", value)
+        self.own_depth = it.depth - self.base_depth
+        self.to_con.release()
+        self.to_gen.acquire()
+        if self.abandoned:
+            raise _GenAbandon()
+        kind, val = self.msg
+        if kind == "throw":
+            raise val
+        return val
+
+
+class _GenClose(Exception):
+    """GeneratorExit delivered by close()."""
+
+
+class _GenCM:
+    """What contextlib.contextmanager makes of a generator function's generator."""
+
+    def __init__(self, gen: AGen) -> None:
+        self.gen = gen
 
 
 ARITH_ON_ORDINALS: set[str] = set()     # ordinals that took part in arithmetic (reported in evidence)
@@ -567,16 +694,37 @@ class Interp:
             raise AnalysisError("ABSINT", f"inlining bound {self.max_depth} exceeded at {fi.qual}")
         try:
             env = self._bind(fi, args, kwargs)
-            is_gen = self._is_generator(fi.node)
-            if is_gen:
-                env["__yielded__"] = []
+            if self._is_generator(fi.node):
+                return self._make_gen(fi.node.body, env, fi, fi.qual)
             try:
                 self.exec_block(fi.node.body, env, fi)
             except _Return as r:
-                return iter(env["__yielded__"]) if is_gen else r.value
-            return iter(env["__yielded__"]) if is_gen else None
+                return r.value
+            return None
         finally:
             self.depth -= 1
+
+    def _make_gen(self, body: list[ast.stmt], env: dict[str, Any], fi: Optional[FuncInfo], label: str,
+                  after: Optional[Callable[[], None]] = None) -> AGen:
+        """Calling a generator function binds its arguments and returns the generator; the body runs when it is advanced."""
+        def run(gen: AGen) -> Any:
+            env["__gen__"] = gen
+            self.depth += 1
+            if self.depth > self.deepest:
+                self.deepest = self.depth
+            try:
+                if self.depth > self.max_depth:
+                    raise AnalysisError("ABSINT", f"inlining bound {self.max_depth} exceeded at generator {label}")
+                try:
+                    self.exec_block(body, env, fi)
+                except _Return as r:
+                    return r.value
+                return None
+            finally:
+                self.depth -= 1
+                if after is not None:
+                    after()
+        return AGen(self, run, label)
 
     def _default(self, fi: FuncInfo, name: str, d: ast.expr) -> Any:
         """Default values are evaluated once (at definition time) and shared by every call: a mutable
@@ -620,20 +768,23 @@ class Interp:
         if self.depth > self.max_depth:
             self.depth -= 1
             raise AnalysisError("ABSINT", f"inlining bound {self.max_depth} exceeded at local {f.node.name}")
-        is_gen = self._is_generator(f.node)
-        if is_gen:
-            e2["__yielded__"] = []
         outer_names = [nm for st_ in ast.walk(f.node) if isinstance(st_, ast.Nonlocal) for nm in st_.names]
+
+        def publish() -> None:
+            for nm in outer_names:           # `nonlocal x`: the enclosing scope sees the assignment
+                if nm in e2:
+                    f.env[nm] = e2[nm]
+        if self._is_generator(f.node):
+            self.depth -= 1
+            return self._make_gen(f.node.body, e2, f.fi, f.node.name, after=publish)
         try:
             try:
                 self.exec_block(f.node.body, e2, f.fi)
             except _Return as r:
-                return iter(e2["__yielded__"]) if is_gen else r.value
-            return iter(e2["__yielded__"]) if is_gen else None
+                return r.value
+            return None
         finally:
-            for nm in outer_names:           # `nonlocal x`: the enclosing scope sees the assignment
-                if nm in e2:
-                    f.env[nm] = e2[nm]
+            publish()
             self.depth -= 1
 
     def _def_defaults(self, a: ast.arguments, env: dict[str, Any], fi: Optional[FuncInfo]) -> dict[str, Any]:
@@ -1075,8 +1226,19 @@ class Interp:
             return d
         if isinstance(n, (ast.ListComp, ast.SetComp, ast.GeneratorExp)):
             if isinstance(n, ast.GeneratorExp):
-                # lazy and one-shot, like the generator it stands for (its source may be endless)
-                return (self.eval(n.elt, e, fi) for e in self._comp_iter(n.generators, 0, self._comp_env(env), fi))
+                # lazy and one-shot, like the generator it stands for (its source may be endless). As in Python, the first
+                # iterable is evaluated now, in the enclosing scope; everything else is evaluated when the generator is
+                # advanced, and the free names then have the values the enclosing scope gives them *at that time* (a
+                # generator expression kept and consumed after its loop variable moved on sees the last value)
+                ge = self._comp_env(env)
+                own = {x.id for g_ in n.generators for x in ast.walk(g_.target) if isinstance(x, ast.Name)}
+                first = self.eval(n.generators[0].iter, env, fi)
+
+                def refresh(outer: dict[str, Any] = env, ge: dict[str, Any] = ge, own: set[str] = own) -> None:
+                    for k_, v_ in outer.items():
+                        if k_ not in own and k_ != "__comp_outer__":
+                            ge[k_] = v_
+                return (self.eval(n.elt, e, fi) for e in self._comp_iter(n.generators, 0, ge, fi, first, refresh))
             out: list[Any] = [self.eval(n.elt, e, fi) for e in self._comp_iter(n.generators, 0, self._comp_env(env), fi)]
             return set(self.dedupe(out)) if isinstance(n, ast.SetComp) else out
         if isinstance(n, ast.DictComp):
@@ -1134,16 +1296,36 @@ class Interp:
         if isinstance(n, ast.Lambda):
             return Lambda(n, env, fi, self._def_defaults(n.args, env, fi))
         if isinstance(n, ast.Yield):
-            # generator functions are evaluated eagerly: the call returns the list of yielded values
-            if "__yielded__" not in env:
+            gen_ = env.get("__gen__")
+            if gen_ is None:
                 raise AnalysisError("ABSINT", "yield outside a generator function", loc(fi.unit.path, n) if fi else "")
-            env["__yielded__"].append(self.eval(n.value, env, fi) if n.value is not None else None)
-            return None
+            return gen_.suspend(self.eval(n.value, env, fi) if n.value is not None else None)
         if isinstance(n, ast.YieldFrom):
-            if "__yielded__" not in env:
+            gen_ = env.get("__gen__")
+            if gen_ is None:
                 raise AnalysisError("ABSINT", "yield from outside a generator function", loc(fi.unit.path, n) if fi else "")
-            env["__yielded__"].extend(self.iterate(self.eval(n.value, env, fi)))
-            return None
+            src_it = iter(self.iterate(self.eval(n.value, env, fi)))
+            sent: Any = None
+            thrown: Optional[BaseException] = None
+            while True:
+                try:                               # delegation: values sent / exceptions thrown reach the sub-generator
+                    if thrown is not None and isinstance(src_it, AGen):
+                        exc_, thrown = thrown, None
+                        item = src_it.throw(exc_)
+                    elif thrown is not None:
+                        raise thrown
+                    elif sent is not None and isinstance(src_it, AGen):
+                        item = src_it.send(sent)
+                    else:
+                        item = next(src_it)
+                except StopIteration as stop:
+                    return stop.value          # the value of `yield from` is what the sub-generator returned
+                try:
+                    sent = gen_.suspend(item)
+                except _GenAbandon:
+                    raise
+                except BaseException as exc:  # noqa: BLE001
+                    thrown, sent = exc, None
         if isinstance(n, ast.NamedExpr):
             v = self.eval(n.value, env, fi)
             env[n.target.id] = v
@@ -1160,19 +1342,22 @@ class Interp:
         e["__comp_outer__"] = env
         return e
 
-    def _comp_iter(self, gens: list[ast.comprehension], i: int, env: dict[str, Any], fi: Optional[FuncInfo]) -> Any:
+    def _comp_iter(self, gens: list[ast.comprehension], i: int, env: dict[str, Any], fi: Optional[FuncInfo],
+                   first: Any = _MISSING, refresh: Optional[Callable[[], None]] = None) -> Any:
         if i == len(gens):
             yield env
             return
         g = gens[i]
         n_ = 0
-        for x in self.iterate(self.eval(g.iter, env, fi)):
+        for x in self.iterate(first if (i == 0 and first is not _MISSING) else self.eval(g.iter, env, fi)):
             n_ += 1
             if n_ > 200_000:
                 raise AnalysisError("ABSINT", "comprehension bound exceeded (endless source consumed whole?)")
+            if refresh is not None:
+                refresh()                 # a generator expression resumed later: free names as they are now
             self.assign(g.target, x, env, fi)
             if all(self.truth(self.eval(c, env, fi)) for c in g.ifs):
-                yield from self._comp_iter(gens, i + 1, env, fi)
+                yield from self._comp_iter(gens, i + 1, env, fi, first, refresh)
 
     def _comp(self, gens: list[ast.comprehension], i: int, env: dict[str, Any],
               fi: Optional[FuncInfo], emit: Callable[[dict[str, Any]], None]) -> None:
@@ -1621,6 +1806,18 @@ class Interp:
                 return getattr(obj, attr)
             except AttributeError as exc:
                 raise AbsRaise(f"AttributeError: {exc}", where) from exc
+        if isinstance(obj, AGen) and attr in ("send", "close", "__next__", "__iter__", "throw"):
+            if attr == "throw":
+                def throw_(exc: Any, *rest: Any) -> Any:
+                    if isinstance(exc, tuple) and len(exc) == 2 and exc[0] == "exc":
+                        exc = AExc(exc[1], (), exc[1])
+                    if isinstance(exc, AExc):
+                        exc = AbsRaise(exc.what if hasattr(exc, "what") else str(exc), where)
+                    return obj.throw(exc)
+                throw_._raw = True  # type: ignore[attr-defined]
+                return throw_
+            m_ = getattr(obj, attr)
+            return m_
         if isinstance(obj, OrdInt):
             raise AnalysisError("CARD", f"attribute {attr} of ordinal {obj.tag}", where)
         raise AnalysisError("ABSINT", f"attribute {attr} of {type(obj).__name__} outside fragment",
@@ -1810,6 +2007,10 @@ class Interp:
                 return f(*nargs, **kwargs)
             except (IndexError, KeyError) as exc:
                 raise AbsRaise(f"{type(exc).__name__} at {src(n)}", where) from exc
+            except StopIteration as exc:
+                if isinstance(getattr(f, "__self__", None), AGen):
+                    raise AbsRaise("StopIteration", where) from exc
+                raise
         if isinstance(f, ModuleRef):
             hook = self.native.get(f.name)
             if hook is not None:
@@ -2482,7 +2683,6 @@ _STR_METHODS = {"translate", "expandtabs", "center", "ljust", "rjust", "swapcase
                 "isalpha", "isalnum", "isspace", "count", "encode", "decode", "title", "capitalize",
                 "partition", "rpartition", "splitlines", "zfill", "isidentifier", "isupper",
                 "islower", "isnumeric", "removeprefix", "removesuffix"}
-_MISSING = object()
 _PURE_MODULES = ("textwrap", "string", "keyword", "unicodedata", "html", "shlex", "math", "itertools", "fnmatch", "posixpath",
                  "statistics", "cmath", "bisect", "heapq")
 _BUILTINS = {"object", "slice", "NotImplemented", "map", "filter", "divmod", "pow", "repr", "type", "iter", "vars", "open", "setattr", "getattr", "dir", "round", "print", "reversed", "hash", "id", "len", "any", "all", "sum", "next", "isinstance", "list", "tuple", "set", "sorted",
